@@ -2,6 +2,7 @@
 from .. import common as C
 
 LEAN_MODULES = ["ZvtVerif.Properties.C17"]
+TRANSLATED = set()      # translated tables this property consumes (a translator problem elsewhere does not break its tie)
 ASSUMPTIONS = ["usize is 64 bit", "python's cp437 codec is the independent reference for the CP437 repertoire"]
 WIDTH = {"u8": 1, "u16": 2, "u32": 4, "u64": 8, "usize": 8}
 
